@@ -258,6 +258,84 @@ static string gepExpr(Type* srcElemTy, const Value* base, ArrayRef<const Value*>
   return "((" + cty(resultPtrTy) + ")&" + acc + ")";
 }
 
+static bool resolveBase(const Value* p, const Value*& base, uint64_t& off);
+// member path inside T at byte offset off whose type is exactly 'want' ("" path = T itself)
+static bool memberPathAt(Type* T, uint64_t off, Type* want, string& path, int depth = 0) {
+  if (T == want && off == 0) return true;
+  if (depth > 12) return false;
+  if (auto* st = dyn_cast<StructType>(T)) {
+    if (st->isOpaque() || st->getNumElements() == 0) return false;
+    const StructLayout* SL = C.DL->getStructLayout(st);
+    if (off >= SL->getSizeInBytes()) return false;
+    unsigned i = SL->getElementContainingOffset(off);
+    // zero-sized leading members can share the offset: take the last field starting at or before off that has size
+    string p2 = path + ".f" + std::to_string(i);
+    if (memberPathAt(st->getElementType(i), off - SL->getElementOffset(i), want, p2, depth + 1)) { path = p2; return true; }
+    return false;
+  }
+  if (auto* at = dyn_cast<ArrayType>(T)) {
+    uint64_t es = C.DL->getTypeAllocSize(at->getElementType());
+    if (es == 0) return false;
+    uint64_t i = off / es;
+    if (i >= at->getNumElements()) return false;
+    string p2 = path + ".a[" + std::to_string(i) + "]";
+    if (memberPathAt(at->getElementType(), off - i * es, want, p2, depth + 1)) { path = p2; return true; }
+    return false;
+  }
+  return false;
+}
+// pointer cast expressed as a member address when the target is a subobject of the (typed) base object: CBMC then
+// sees a field access instead of a byte-offset access (keeps its value sets and constant propagation field-sensitive)
+// relaxed variant: the subobject at 'off' that has the same size as 'want' (or a scalar leaf) -- result needs a cast
+static bool memberPathAtSized(Type* T, uint64_t off, Type* want, string& path, int depth = 0) {
+  if (depth > 12) return false;
+  uint64_t ws = want->isSized() ? C.DL->getTypeAllocSize(want) : 0;
+  if (off == 0 && ws != 0 && T->isSized() && C.DL->getTypeAllocSize(T) == ws && !(T->isStructTy() && want->isStructTy() == false && cast<StructType>(T)->getNumElements() == 1)) {
+    if (!T->isArrayTy()) return true;
+  }
+  if (auto* st = dyn_cast<StructType>(T)) {
+    if (st->isOpaque() || st->getNumElements() == 0) return false;
+    const StructLayout* SL = C.DL->getStructLayout(st);
+    if (off >= SL->getSizeInBytes()) return false;
+    unsigned i = SL->getElementContainingOffset(off);
+    string p2 = path + ".f" + std::to_string(i);
+    if (memberPathAtSized(st->getElementType(i), off - SL->getElementOffset(i), want, p2, depth + 1)) { path = p2; return true; }
+    return false;
+  }
+  if (auto* at = dyn_cast<ArrayType>(T)) {
+    uint64_t es = C.DL->getTypeAllocSize(at->getElementType());
+    if (es == 0) return false;
+    uint64_t i = off / es;
+    if (i >= at->getNumElements()) return false;
+    string p2 = path + ".a[" + std::to_string(i) + "]";
+    if (memberPathAtSized(at->getElementType(), off - i * es, want, p2, depth + 1)) { path = p2; return true; }
+    return false;
+  }
+  return off == 0 && ws != 0 && C.DL->getTypeAllocSize(T) == ws;
+}
+static bool ptrCastAsMember(const Value* src, Type* dstTy, string& out) {
+  if (!dstTy->isPointerTy()) return false;
+  Type* want = dstTy->getPointerElementType();
+  if (want->isFunctionTy() || want->isIntegerTy(8)) return false;
+  const Value* base; uint64_t off;
+  if (!resolveBase(src, base, off)) return false;
+  Type* bt = base->getType()->getPointerElementType();
+  if (!(bt->isStructTy() || bt->isArrayTy())) return false;
+  if (bt == want && off == 0) return false;
+  string path;
+  if (memberPathAt(bt, off, want, path)) {
+    defineAggregate(bt);
+    out = "(&(*(" + val(base) + "))" + path + ")";
+    return true;
+  }
+  path.clear();
+  if (want->isSized() && memberPathAtSized(bt, off, want, path) && !path.empty()) {
+    defineAggregate(bt);
+    out = "((" + cty(dstTy) + ")&(*(" + val(base) + "))" + path + ")";
+    return true;
+  }
+  return false;
+}
 static string castExpr(unsigned opc, const Value* src, Type* dstTy) {
   Type* sTy = src->getType();
   string s = val(src);
@@ -268,7 +346,11 @@ static string castExpr(unsigned opc, const Value* src, Type* dstTy) {
   case Instruction::PtrToInt: return maskExpr(dstTy->getIntegerBitWidth(), "(u64)(" + s + ")");
   case Instruction::IntToPtr: return "((" + cty(dstTy) + ")(u64)(" + s + "))";
   case Instruction::BitCast:
-    if (sTy->isPointerTy() && dstTy->isPointerTy()) return "((" + cty(dstTy) + ")(" + s + "))";
+    if (sTy->isPointerTy() && dstTy->isPointerTy()) {
+      string m;
+      if (ptrCastAsMember(src, dstTy, m)) return m;
+      return "((" + cty(dstTy) + ")(" + s + "))";
+    }
     if (sTy->isIntegerTy(32) && dstTy->isFloatTy()) return "vp_bits2f(" + s + ")";
     if (sTy->isIntegerTy(64) && dstTy->isDoubleTy()) return "vp_bits2d(" + s + ")";
     if (sTy->isFloatTy() && dstTy->isIntegerTy(32)) return "vp_f2bits(" + s + ")";
@@ -278,8 +360,11 @@ static string castExpr(unsigned opc, const Value* src, Type* dstTy) {
   case Instruction::FPExt: case Instruction::FPTrunc: return "((" + cty(dstTy) + ")(" + s + "))";
   case Instruction::SIToFP: return "((" + cty(dstTy) + ")" + sextExpr(sTy->getIntegerBitWidth(), s) + ")";
   case Instruction::UIToFP: return "((" + cty(dstTy) + ")(" + s + "))";
-  case Instruction::FPToSI: return maskExpr(dstTy->getIntegerBitWidth(), "(u64)(i64)(" + s + ")");
-  case Instruction::FPToUI: return maskExpr(dstTy->getIntegerBitWidth(), "(u64)(" + s + ")");
+  // out-of-range conversion = poison: value 0 (advisory VP_CHK("float-to-int-range") is emitted by the caller)
+  case Instruction::FPToSI: { unsigned w = dstTy->getIntegerBitWidth(); string lim = "0x1p" + std::to_string(w > 64 ? 63 : w - 1);
+    return "(((" + s + ") >= -" + lim + " && (" + s + ") < " + lim + ") ? " + maskExpr(w, "(u64)(i64)(" + s + ")") + " : (" + ity(w) + ")0)"; }
+  case Instruction::FPToUI: { unsigned w = dstTy->getIntegerBitWidth(); string lim = "0x1p" + std::to_string(w > 64 ? 64 : w);
+    return "(((" + s + ") > -1.0 && (" + s + ") < " + lim + ") ? " + maskExpr(w, "(u64)(" + s + ")") + " : (" + ity(w) + ")0)"; }
   default: die("unsupported cast opcode"); return "";
   }
 }
@@ -357,9 +442,11 @@ static string binExpr(unsigned opc, Type* t, const string& a, const string& b) {
   case Instruction::And: return maskExpr(w, x + " & " + y);
   case Instruction::Or: return maskExpr(w, x + " | " + y);
   case Instruction::Xor: return maskExpr(w, x + " ^ " + y);
-  case Instruction::Shl: return maskExpr(w, x + " << " + y);
-  case Instruction::LShr: return maskExpr(w, x + " >> " + y);
-  case Instruction::AShr: return maskExpr(w, "(" + W + ")(" + sextExpr(w, a) + " >> " + y + ")");
+  // an over-wide shift count yields poison in LLVM (not immediate UB; the optimizer speculates such shifts): value 0 here,
+  // the separate VP_CHK("shift-count") is advisory and only counts when the native UBSan run confirms it
+  case Instruction::Shl: return "((u64)(" + b + ") < " + std::to_string(w) + " ? " + maskExpr(w, x + " << " + y) + " : (" + ity(w) + ")0)";
+  case Instruction::LShr: return "((u64)(" + b + ") < " + std::to_string(w) + " ? " + maskExpr(w, x + " >> " + y) + " : (" + ity(w) + ")0)";
+  case Instruction::AShr: return "((u64)(" + b + ") < " + std::to_string(w) + " ? " + maskExpr(w, "(" + W + ")(" + sextExpr(w, a) + " >> " + y + ")") + " : (" + ity(w) + ")0)";
   default: die("bad int binop"); return "";
   }
 }
@@ -1124,11 +1211,13 @@ int main(int argc, char** argv) {
   string in, outp, entry = "vp_main";
   bool lineInfo = true, prep = false;
   std::set<string> stubs;
+  std::vector<string> skipCtors;  // global constructors (by name substring) not executed: stated per harness
   for (int i = 1; i < argc; i++) {
     string a = argv[i];
     if (a == "-o") outp = argv[++i];
     else if (a == "--prep") prep = true;
     else if (a == "--stub") stubs.insert(argv[++i]);
+    else if (a == "--skip-ctor") skipCtors.push_back(argv[++i]);
     else if (a == "--entry") entry = argv[++i];
     else if (a == "--no-line") lineInfo = false;
     else in = a;
@@ -1167,7 +1256,12 @@ int main(int argc, char** argv) {
         for (auto& op : arr->operands()) {
           auto* cs = cast<ConstantStruct>(op.get());
           unsigned prio = cast<ConstantInt>(cs->getOperand(0))->getZExtValue();
-          if (auto* f = dyn_cast<Function>(cs->getOperand(1)->stripPointerCasts())) { ctors.push_back({prio, f}); roots.push_back(f); }
+          if (auto* f = dyn_cast<Function>(cs->getOperand(1)->stripPointerCasts())) {
+            bool skip = false;
+            for (auto& sc : skipCtors) if (f->getName().contains(sc)) skip = true;
+            if (skip) { outs() << "SKIPPED-CTOR " << f->getName() << "\n"; continue; }
+            ctors.push_back({prio, f}); roots.push_back(f);
+          }
         }
   }
   std::stable_sort(ctors.begin(), ctors.end(), [](auto& a, auto& b) { return a.first < b.first; });
